@@ -18,7 +18,13 @@ CONSTANTS MaxLen, Alphabet
 \* symbols and the code points of their representatives (ordering matters for ranges)
 Code == [a |-> 97, b |-> 98, bs |-> 92, q |-> 63, plus |-> 43, star |-> 42, lb |-> 91, rb |-> 93,
          dash |-> 45, bang |-> 33, slash |-> 47, dot |-> 46, sp |-> 32, tab |-> 9, tilde |-> 126,
-         caret |-> 94, colon |-> 58, cr |-> 13, nl |-> 10, uni |-> 233, ctl |-> 1]
+         caret |-> 94, colon |-> 58, cr |-> 13, nl |-> 10, uni |-> 233, ctl |-> 1,
+         nul |-> 0, bad |-> 65533]
+\* NUL and invalid UTF-8 ("bad", seen as U+FFFD): the scanner reports an error for them, so a pattern that
+\* contains one is invalid.  They are not part of the exhaustive alphabets; the operational layer does not
+\* model where the scanner error is placed (recorded executions with them are judged by the declarative layer).
+Illegal == {"nul", "bad"}
+HasIllegal(t) == \E i \in DOMAIN t : t[i] \in Illegal
 AllSyms == DOMAIN Code
 LineBreaks == {"nl", "cr"}
 Range(f) == {f[x] : x \in DOMAIN f}
@@ -167,6 +173,7 @@ Atoms == {"ord", "esc", "class"}
 WF(s, isRef) ==
   /\ s # <<>>
   /\ \A i \in DOMAIN s : s[i] \notin LineBreaks
+  /\ ~HasIllegal(s)
   /\ LET body == IF s[1] = "bang" THEN Tail(s) ELSE s
          es == Elems(body, 1) IN
      /\ body # <<>>
@@ -202,6 +209,8 @@ DeclRefImpliesPath == WF(s, TRUE) => WF(s, FALSE)
 Terminates == \A e \in (Range(exp.ref) \cup Range(exp.path)) : e.cls # "diverged"
 \* what the property demands of one reported error e for the pattern t
 ErrOKFor(t, e) ==
+  IF e.cls = "scan-error" THEN TRUE      \* where the scanner places its own error is not constrained
+  ELSE
   /\ e.col \in 0 .. Len(t)
   /\ e.col = 0 => \/ e.cls \in {"empty", "path-lead-space"}
                   \/ \E i \in DOMAIN t : t[i] = "nl"
